@@ -39,7 +39,11 @@ RULE = ("cases: one-field recipes calling random_number / random_choice / date_b
         "as quoted ISO texts, relative, today/now), each row checked against the bounds written for THAT row (oracle) and value-for-value (model); "
         "weights and date / datetime bounds reach the model as the TEXT written into the recipe (parse_weight_str, spec_of_text: relative, ISO date, "
         "ISO datetime with fraction / Z / offset; for one bound in four Python's datetime computes the fields instead), printed results are read by "
-        "the model too (value_of_text).  non-trivial: a run that produced at least one value from a range "
+        "the model too (value_of_text).  Round 4: random_number with large-magnitude arguments (beyond 2**53, up to 400 digits, negative, large steps) "
+        "reaching it by every route an argument can take (YAML int, quoted digits, `${{ }}` / `${% %}` / `<< >>` formula, variable, variable defined by a formula, "
+        "option default, option text from the caller, integer arithmetic, earlier field / this.field), dialect 2 (formula results rendered to text and re-read) and 3, "
+        "call written as a block / inside a formula / positionally / in `<< >>`: checked against the integers written (oracle + FNumber); random_choice weights "
+        "beyond 2**53.  non-trivial: a run that produced at least one value from a range "
         "with >= 2 lattice points / >= 2 options / bounds that differ, or an error case of the property "
         "(empty range, all-zero weights); distinct by case hash")
 TRUSTED = ["harness/oracle_random.py: random.Random._randbelow patched to inject the integer draw",
@@ -58,6 +62,8 @@ ASSUMPTIONS = ["CPython random.randrange / random.choice / random.choices (bisec
                "Python float(text), Faker's relative-date regex (fullmatch) and the ISO 8601 subset shared by YAML timestamps, dateutil and isoformat, "
                "as transcribed (parse_decimal, parse_rel, parse_iso); texts outside these grammars are Unsupported in the model and not generated",
                "formula evaluation (Jinja) itself is not modelled: a formula is its value table over the row key",
+               "route stream: Jinja evaluates + - * ** on integers exactly; in dialect 2 a formula result is re-read as a number only when it is a digit string >= 1 "
+               "(0 and negative results stay text: accepted as the decimal text of the integer); texts beyond CPython's 4300-digit int limit are not generated",
                "Python int arithmetic = Z arithmetic; local time zone = UTC"]
 EXHAUSTIVE = {"quick": False, "thorough": False}
 
@@ -447,6 +453,108 @@ def all_specs(case):
     return [case["start"], case["end"]]
 
 
+# ------------------------------------------------------------------------------------------------
+# the ROUTES an argument takes to random_number (round 4): the integer the user wrote reaches the function as a
+# YAML int, a quoted digit string, the result of a formula (`${{ }}`, `${% %}`, `<< >>`: in dialect 2 rendered to
+# text and re-read by the recipe language, in dialect 3 a native value), a variable (plain or itself a formula), an
+# option (default in the recipe / text given by the caller), integer arithmetic inside the formula, an earlier
+# field of the row; the call is a block or is itself written inside a formula (then the RESULT is rendered to text
+# and re-read in dialect 2).  Whatever the route, the bounds and the lattice are those of the integers written.
+TEXT_ROUTES = ("quoted", "formula", "legacy", "blocktag", "var", "var_formula", "option", "user_option", "arith", "field", "this_field")
+
+
+def arith_expr(n, salt):
+    """an integer expression (+ - * ** only) whose value is n, as the user might write it"""
+    a = abs(n)
+    k = a.bit_length() - 1 if a else 0
+    forms = []
+    if a >= 8:
+        forms.append(f"2**{k} + {a - 2 ** k}")
+        forms.append(f"{a // 1000} * 1000 + {a % 1000}")
+        forms.append(f"{a + 12345} - 12345")
+        forms.append(f"({a // 7} * 7) + {a % 7}")
+        d = len(str(a)) - 1
+        forms.append(f"10**{d} * {a // 10 ** d} + {a % 10 ** d}")
+    forms.append(f"{a} + 0")
+    forms.append(f"{a} * 1")
+    e = forms[salt % len(forms)]
+    return e if n >= 0 else f"0 - ({e})"
+
+
+def reread_as_text(route, call, dialect):
+    """in dialect 2 the value goes through text on this route (only digit strings >= 1 come back as numbers)"""
+    if dialect != 2:
+        return False
+    if route in ("var_formula", "user_option", "quoted", "legacy", "blocktag"):
+        return True
+    return call == "block" and route != "yaml"
+
+
+def paths_parts(case):
+    """(declarations, fields before d, {name: text in the block call}, {name: expression in the inline call}, user options)"""
+    p = case["paths"]
+    decls, pre, blk, inl, uopts = [], [], {}, {}, {}
+    for name in ("min", "max", "step"):
+        v = case[name]
+        if v is None:
+            continue
+        route = p["args"][name]
+        salt = p.get("salt", 0)
+        if route == "yaml":
+            blk[name], inl[name] = str(v), str(v)
+        elif route == "quoted":
+            blk[name], inl[name] = f'"{v}"', str(v)
+        elif route == "formula":
+            blk[name], inl[name] = "${{ " + str(v) + " }}", str(v)
+        elif route == "legacy":
+            blk[name], inl[name] = f'"<< {v} >>"', str(v)
+        elif route == "blocktag":
+            blk[name], inl[name] = '"${% if id %}' + str(v) + '${% endif %}"', str(v)
+        elif route in ("var", "var_formula"):
+            val = str(v) if route == "var" else "${{ " + arith_expr(v, salt) + " }}"
+            decls += [f"- var: v_{name}", f"  value: {val}"]
+            blk[name], inl[name] = "${{ v_" + name + " }}", f"v_{name}"
+        elif route == "option":
+            decls += [f"- option: o_{name}", f"  default: {v}"]
+            blk[name], inl[name] = "${{ o_" + name + " }}", f"o_{name}"
+        elif route == "user_option":
+            decls += [f"- option: o_{name}"]
+            uopts[f"o_{name}"] = str(v)
+            blk[name], inl[name] = "${{ o_" + name + " }}", f"o_{name}"
+        elif route == "arith":
+            e = arith_expr(v, salt)
+            blk[name], inl[name] = "${{ " + e + " }}", f"({e})"
+        elif route in ("field", "this_field"):
+            pre.append(f"f_{name}: {v}")
+            ref = f"f_{name}" if route == "field" else f"this.f_{name}"
+            blk[name], inl[name] = "${{ " + ref + " }}", ref
+        else:
+            raise ValueError(route)
+    return decls, pre, blk, inl, uopts
+
+
+def paths_recipe(case):
+    p = case["paths"]
+    decls, pre, blk, inl, _ = paths_parts(case)
+    head = ("" if p["dialect"] == 2 else "- snowfakery_version: 3\n") + "".join(l + "\n" for l in decls)
+    head += f"- object: A\n  count: {case['draws']['rows']}\n  fields:\n" + "".join(f"    {l}\n" for l in pre)
+    names = [n for n in ("min", "max", "step") if case[n] is not None]
+    if p["call"] == "block":
+        return head + "    d:\n      random_number:\n" + "".join(f"        {n}: {blk[n]}\n" for n in names)
+    if p["call"] == "positional":
+        args = ", ".join(inl[n] for n in names)
+    else:
+        args = ", ".join(f"{n}={inl[n]}" for n in names)
+    open_, close = ("<< ", " >>") if p["call"] == "inline_legacy" else ("${{ ", " }}")
+    return head + "    d: " + json.dumps(open_ + "random_number(" + args + ")" + close) + "\n"
+
+
+def paths_result_reread(case):
+    """the call is itself inside a formula in dialect 2: its result is rendered to text and re-read"""
+    p = case.get("paths")
+    return bool(p) and p["dialect"] == 2 and p["call"] != "block"
+
+
 def inline_expr(case):
     """`${{ ... }}` form for random_number only"""
     args = f"min={case['min']}, max={case['max']}"
@@ -460,6 +568,8 @@ def recipe(case):
         return block_recipe(case)
     if "rowargs" in case:
         return rowargs_recipe(case)
+    if "paths" in case:
+        return paths_recipe(case)
     rows = case["draws"]["rows"]
     version = "" if case.get("syntax") == "legacy" else "- snowfakery_version: 3\n"   # << >> needs the legacy mode
     head = f"{version}- object: A\n  count: {rows}\n  fields:\n"
@@ -597,6 +707,8 @@ def run_impl(case):
     kw = {}
     if "blk" in case and case["blk"]["struct"] == "iter":
         kw["target_number"] = (case["blk"]["target"], "A")
+    if "paths" in case and paths_parts(case)[4]:
+        kw["user_options"] = paths_parts(case)[4]
     try:
       with freezer as frozen:
           if mode == "free":
@@ -624,7 +736,13 @@ def run_impl(case):
               obs["rows"] = [[canon_key(r.get("k")), canon_value(case["kind"], r.get("d"))] for r in rows if r.get("_table") == "A"]
               obs["ok"] = [r[1] for r in obs["rows"]]
           else:
-              obs["ok"] = [canon_value(case["kind"], r.get("d")) for r in rows if r.get("_table") == "A"]
+              vals = [r.get("d") for r in rows if r.get("_table") == "A"]
+              if paths_result_reread(case):
+                  # dialect 2 renders the result of a formula to text and reads back only digit strings >= 1:
+                  # 0 and negative results stay the decimal text of the integer
+                  obs["text_results"] = sum(1 for v in vals if isinstance(v, str))
+                  vals = [int(v) if isinstance(v, str) and re.fullmatch(r"0|-[1-9][0-9]*", v) else v for v in vals]
+              obs["ok"] = [canon_value(case["kind"], v) for v in vals]
     except BaseException as e:
         if isinstance(e, (KeyboardInterrupt, SystemExit, C._CaseTimeout)):
             raise
@@ -852,6 +970,12 @@ def oracle(case, obs):
     if vals is not None and any(v[0] == "other" for v in vals):
         return f"{k}: unexpected value in the output: {[v for v in vals if v[0] == 'other'][:2]}"
     mode = case["draws"]["mode"]
+    if "paths" in case:
+        pp = case["paths"]
+        msg = oracle({kk: vv for kk, vv in case.items() if kk != "paths"}, obs)
+        return msg and (msg + f" -- dialect {pp['dialect']}, call written as {pp['call']}, arguments reaching it as "
+                        + ", ".join(f"{n}: {r}" for n, r in pp["args"].items() if case.get(n) is not None)
+                        + "; recipe: " + json.dumps(paths_recipe(case))[:600])
     if "rowargs" in case:
         ra = case["rowargs"]
         what = (f"arguments changing from row to row (key {ra['driver']}, literal: {ra['lit'] or 'none'}, "
@@ -1054,6 +1178,27 @@ def stats(cases, obss):
                 feats["number:beyond-64-bit"] += 1
             if c["min"] < 0:
                 feats["number:negative-min"] += 1
+            if "paths" in c:
+                pp = c["paths"]
+                feats["routes"] += 1
+                feats[f"routes:dialect-{pp['dialect']}"] += 1
+                feats[f"routes:call:{pp['call']}"] += 1
+                big = [n for n in ("min", "max", "step") if c[n] is not None and abs(c[n]) > 2 ** 53]
+                for n, r in pp["args"].items():
+                    if c[n] is not None:
+                        feats[f"routes:arg:{r}"] += 1
+                        if n in big and reread_as_text(r, pp["call"], pp["dialect"]):
+                            feats["routes:argument-beyond-2^53-rendered-to-text-and-re-read"] += 1
+                        elif n in big and r != "yaml":
+                            feats["routes:argument-beyond-2^53-through-formula-natively"] += 1
+                if big:
+                    feats["routes:some-argument-beyond-2^53"] += 1
+                    m = max(len(str(abs(c[n]))) for n in big)
+                    feats["routes:digits:" + ("17-20" if m <= 20 else "21-99" if m < 100 else "100+")] += 1
+                if paths_result_reread(c) and any(v[0] == "z" and abs(v[1]) > 2 ** 53 for v in o.get("ok", [])):
+                    feats["routes:result-beyond-2^53-rendered-to-text-and-re-read"] += 1
+                if o.get("text_results"):
+                    feats["routes:result-stays-text (0 / negative in dialect 2)"] += 1
             span["<0" if w < 0 else "0" if w == 0 else "1-9" if w < 10 else "10-999" if w < 1000 else ">=1000"] += 1
         elif k == "choice" and "blk" in c:
             blk = c["blk"]
@@ -1098,6 +1243,8 @@ def stats(cases, obss):
                     feats["choice:zero-weight-moves-between-rows"] += 1
             if any(w == 0 for w in ws):
                 feats["choice:has-zero-weight"] += 1
+            if any(w is not None and abs(w) > 4 * 2 ** 53 for w in ws + [w for row in c.get("wrows", []) for w in row]):
+                feats["choice:weight-beyond-2^53"] += 1
             if sum(1 for w in ws if w) == 1 and all(w is not None for w in ws):
                 feats["choice:single-mass"] += 1
             if any(w is None for w in ws):
@@ -1207,6 +1354,98 @@ def gen_number(rng, tier):
     return out
 
 
+def gen_magnitude(rng):
+    """a positive integer, mostly one a double cannot hold"""
+    r = rng.random()
+    if r < 0.3:
+        return 2 ** 53 + rng.choice([1, 1, 3, 5, 7, 2 * rng.randint(0, 5000) + 1])            # first integers beyond the doubles
+    if r < 0.45:
+        return 2 ** rng.choice([53, 54, 55, 60, 63, 64, 80, 100, 200, 1000]) + rng.randint(-9, 9)
+    if r < 0.6:
+        return rng.randint(10 ** 16, 10 ** rng.choice([17, 19, 20, 30, 40]))
+    if r < 0.75:
+        return rng.randint(10 ** 99, 10 ** rng.choice([100, 150, 300, 320, 400]))               # hundreds of digits (beyond the doubles' range too)
+    if r < 0.85:
+        return 10 ** rng.choice([16, 17, 22, 23, 50, 308, 309]) + rng.choice([1, -1, 3, 7])
+    return rng.choice([1, 2, 7, 10, 99, 100, rng.randint(1, 10 ** 6), rng.randint(1, 2 ** 53)])
+
+
+def gen_paths_triple(rng):
+    mn = gen_magnitude(rng)
+    r = rng.random()
+    if r < 0.25:
+        mn = -mn
+    elif r < 0.3:
+        mn = rng.choice([0, -1, -3])
+    r = rng.random()
+    span = (rng.choice([0, 0, 1, 2, 3, 6, rng.randint(0, 12), rng.randint(0, 40)]) if r < 0.6 else
+            rng.randint(0, 1000) if r < 0.7 else gen_magnitude(rng))
+    if mn < 0 and rng.random() < 0.3:
+        span = -mn + gen_magnitude(rng)                                # the range straddles 0
+    r = rng.random()
+    if r < 0.25:
+        step = None
+    elif r < 0.5:
+        step = rng.choice([1, 2, 2, 3, 5])
+    elif r < 0.65:
+        step = max(1, span + rng.choice([-1, 0, 1]))
+    elif r < 0.85:
+        step = max(1, gen_magnitude(rng) if span > 2 ** 53 else rng.randint(1, max(1, span)))
+    else:
+        step = gen_magnitude(rng)                                      # often > span: only min is on the lattice
+    return mn, mn + span, step
+
+
+def gen_paths_case(rng, mn, mx, step, i):
+    dialect = 2 if i % 3 != 2 else 3                                   # dialect 2 is the default of the recipe language
+    call = rng.choice(["block", "block", "inline", "inline", "positional"] + (["inline_legacy"] if dialect == 2 else []))
+    case = {"kind": "number", "min": mn, "max": mx, "step": step, "style": "paths"}
+    routes = {}
+    for name in ("min", "max", "step"):
+        v = case[name]
+        if v is None:
+            continue
+        pool = ["yaml", "formula", "blocktag", "var", "var", "var_formula", "option", "user_option", "arith", "arith", "field", "this_field"]
+        if dialect == 2:
+            pool += ["quoted", "legacy"]
+        if call != "block":                                            # inside a formula an argument is an expression
+            pool = ["yaml", "var", "var", "var_formula", "option", "arith", "arith", "field", "this_field"]
+        route = rng.choice(pool)
+        if v < 1 and reread_as_text(route, call, dialect):
+            route = "yaml"                                             # 0 / negative text is not read back as a number in dialect 2
+        routes[name] = route
+    case["paths"] = {"dialect": dialect, "call": call, "args": routes, "salt": rng.randint(0, 99)}
+    return case
+
+
+def gen_number_paths(rng, tier):
+    out = []
+    n = 130 if tier == "quick" else 2500
+    fixed = [(2 ** 53 + 1, 2 ** 53 + 7, 2), (2 ** 53 + 1, 2 ** 53 + 1, None), (2 ** 53 - 1, 2 ** 53 + 2, None), (2 ** 53 + 1, 2 ** 54 + 3, 2 ** 53 + 1),
+              (-(2 ** 53) - 7, -(2 ** 53) - 1, 3), (10 ** 22 + 1, 10 ** 22 + 9, 4), (1, 2 ** 64 + 1, 2 ** 63 + 1), (10 ** 300 + 1, 10 ** 300 + 3, None)]
+    triples = fixed + [gen_paths_triple(rng) for _ in range(n)]
+    for i, (mn, mx, step) in enumerate(triples):
+        base = gen_paths_case(rng, mn, mx, step, i)
+        st = 1 if step is None else step
+        npts = (mx - mn) // st + 1
+        out.append(dict(base, draws=draws(rng, "ends")))
+        if npts <= 13:
+            out.append(dict(base, draws=draws(rng, "all", rows=npts)))
+        else:
+            out.append(dict(base, draws=draws(rng, "raw")))
+        if i % 2 == 0:
+            out.append(dict(base, draws=draws(rng, "free", rows=12)))
+    # empty ranges / zero steps through the same routes: still an error (or nothing), never a value
+    for i in range(10 if tier == "quick" else 150):
+        mn, mx, step = gen_paths_triple(rng)
+        if i % 2:
+            mn, mx = mx + rng.choice([1, 2, gen_magnitude(rng)]), mn
+        else:
+            step = 0
+        out.append(dict(gen_paths_case(rng, mn, mx, step, i), draws=draws(rng, rng.choice(["ends", "free"]), rows=2)))
+    return out
+
+
 def gen_weights(rng, n):
     r = rng.random()
     pool = [0, 0, 4, 8, 40, 200, 240, 400, 1, 2, 3, 50, rng.randint(0, 400)]
@@ -1267,6 +1506,36 @@ def gen_choice(rng, tier):
         out.append(dict(base, draws={"mode": "raw", "rows": nrows,
                                      "raw": [rng.choice([0, DEN - 1, rng.randint(0, DEN - 1)]) for _ in range(nrows)]}))
         if i % 2 == 0:
+            out.append(dict(base, draws={"mode": "free", "rows": nrows, "seed": rng.randint(0, 10 ** 6)}))
+    # weights of large magnitude (beyond 2**53, up to hundreds of digits: float() rounds them, but 0 stays 0 and a positive
+    # weight stays positive), as YAML ints, quoted / percent texts and per-row formulas in the three syntaxes
+    def huge(rng):
+        h = gen_magnitude(rng)
+        while h >= 10 ** 300:
+            h = gen_magnitude(rng)
+        return 4 * h
+    for i in range(24 if tier == "quick" else 500):
+        form = rng.choice(["choices", "dict"])
+        k = rng.choice([2, 2, 3, 4])
+        labels = rng.sample(range(1, 40), k)
+        single = i % 2 == 0
+        ws = [0] * k
+        ws[rng.randrange(k)] = huge(rng)
+        if not single:
+            ws[rng.randrange(k)] = huge(rng)
+        if i % 4 < 2:
+            items = [[lab, w, rng.choice(["num", "num", "str", "pct", "sp", "plus"])] for lab, w in zip(labels, ws)]
+            base = {"kind": "choice", "form": form, "items": items}
+            out.append(dict(base, draws=draws(rng, "free", rows=20)))
+            if sum(1 for w in ws if w) == 1:
+                out.append(dict(base, draws=draws(rng, "ends")))
+        else:                                   # the single mass rotates over the rows; compared draw by draw
+            nrows = rng.choice([2, 3, 4])
+            h = [huge(rng) for _ in range(nrows)]
+            wrows = [[h[r] if j == (r + i) % k else 0 for j in range(k)] for r in range(nrows)]
+            base = {"kind": "choice", "form": form, "syntax": ["jinja", "block", "legacy"][i % 3], "pct": rng.random() < 0.4,
+                    "wrows": wrows, "items": [[lab, w, "num"] for lab, w in zip(labels, wrows[0])]}
+            out.append(dict(base, draws={"mode": "raw", "rows": nrows, "raw": [rng.choice([0, DEN - 1, rng.randint(0, DEN - 1)]) for _ in range(nrows)]}))
             out.append(dict(base, draws={"mode": "free", "rows": nrows, "seed": rng.randint(0, 10 ** 6)}))
     # boundaries of the bisect: draws exactly at the cumulative weights
     for ws in ([4, 4], [4, 0, 4], [0, 4], [4, 0], [256, 256, 512], [1, 1023 * 4 + 3], [0, 0, 4, 0, 0]):
@@ -1684,7 +1953,7 @@ def gen_datetime(rng, tier):
 
 
 def generate(rng, tier):
-    return gen_number(rng, tier) + gen_choice(rng, tier) + gen_blocks(rng, tier) + gen_rowargs(rng, tier) + gen_date(rng, tier) + gen_datetime(rng, tier)
+    return gen_number(rng, tier) + gen_number_paths(rng, tier) + gen_choice(rng, tier) + gen_blocks(rng, tier) + gen_rowargs(rng, tier) + gen_date(rng, tier) + gen_datetime(rng, tier)
 
 
 def shrink(case):
@@ -1700,6 +1969,15 @@ def shrink(case):
             yield dict(case, blk=dict(blk, blocks=[dict(b, cols=[dict(c, pickf=False) for c in b["cols"]]) for b in blk["blocks"]]))
         if blk["struct"] == "count" and blk["count"] > 2:
             yield dict(case, blk=dict(blk, count=blk["count"] - 1))
+        return
+    if "paths" in case:
+        pp = case["paths"]
+        for n, r in pp["args"].items():
+            if r != "yaml":
+                yield dict(case, paths=dict(pp, args=dict(pp["args"], **{n: "yaml"})))
+        if pp["call"] != "block":
+            yield dict(case, paths=dict(pp, call="block", args={n: "yaml" if case[n] is not None and case[n] < 1 else r
+                                                                 for n, r in pp["args"].items()}))
         return
     dr = case["draws"]
     if dr["rows"] > 1 and dr["mode"] in ("raw", "free") and "wrows" not in case:
@@ -1730,5 +2008,5 @@ def directed_search(rng, disagreeing):
                     st = step or 1
                     out.append({"kind": "number", "min": mn, "max": mn + span, "step": step, "style": "block",
                                 "draws": draws(rng, "all", rows=span // st + 1)})
-    out += gen_choice(rng, "quick") + gen_blocks(rng, "quick") + gen_rowargs(rng, "quick") + gen_date(rng, "quick") + gen_datetime(rng, "quick")
+    out += gen_number_paths(rng, "quick") + gen_choice(rng, "quick") + gen_blocks(rng, "quick") + gen_rowargs(rng, "quick") + gen_date(rng, "quick") + gen_datetime(rng, "quick")
     return out
